@@ -8,6 +8,9 @@ CONSTANTS MaxItems = 1
  Budget = 3
  IdOffs <- IdOffs3
  Rules = {"assume", "substitution", "sorry", "subproof"}
+ ArgKinds = {}
+ ArityOffs <- ArityOffs1
+ MaxAlias = 0
  Emit = TRUE
 INVARIANT RefSound
 INVARIANT RefGapFree
